@@ -90,6 +90,8 @@ func VerifC09_NodeClaimFinalizer() {
 	if !allKinds {
 		e.kc.FaultMax = stubs.FaultOther
 		e.cp.CreateErrors = []int{stubs.CreateOther}
+	} else {
+		e.cp.CreateErrors = []int{stubs.CreateInsufficientCapacity, stubs.CreateOther, stubs.CreateWrappedInsufficientCapacity}
 	}
 	e.kc.OnWrite = func(verb string, obj client.Object) {
 		nc, isClaim := obj.(*v1.NodeClaim)
